@@ -1,6 +1,10 @@
 ------------------------------ MODULE MCFresh ------------------------------
 (* C08 at small scale: idealised high entropy = every old byte is a distinct symbol, every  *)
 (* byte introduced by an edit is a fresh symbol. All edit scripts of up to K edits.          *)
+(* "owc" / "insc" introduce a run of ONE repeated fresh symbol (zero fill, padding): inside  *)
+(* such a run every window has the rolling hash of the one before it, the case the differ's  *)
+(* skip shortcut (WsyncDiff: skip == rolling /\ nbeta = beta) is about; the data after the   *)
+(* run has to be found again.                                                                *)
 EXTENDS WsyncDiff
 CONSTANTS NBlocks, TailLen, K, MaxEdit
 OldLen(b) == NBlocks * b + TailLen
@@ -9,11 +13,17 @@ OldSeq(b) == [i \in 1..OldLen(b) |-> i]
 Overwrite(s, o, n, fb) == [i \in 1..Len(s) |-> IF i > o /\ i <= o + n THEN fb + i ELSE s[i]]
 Insert(s, o, n, fb) == SubSeq(s, 1, o) \o [i \in 1..n |-> fb + i] \o SubSeq(s, o + 1, Len(s))
 Delete(s, o, n) == SubSeq(s, 1, o) \o SubSeq(s, o + n + 1, Len(s))
+OverwriteC(s, o, n, fb) == [i \in 1..Len(s) |-> IF i > o /\ i <= o + n THEN fb ELSE s[i]]
+InsertC(s, o, n, fb) == SubSeq(s, 1, o) \o [i \in 1..n |-> fb] \o SubSeq(s, o + 1, Len(s))
 ApplyEdit(s, e, fb) == CASE e[1] = "ow" -> Overwrite(s, e[2], e[3], fb)
                            [] e[1] = "ins" -> Insert(s, e[2], e[3], fb)
+                           [] e[1] = "owc" -> OverwriteC(s, e[2], e[3], fb)
+                           [] e[1] = "insc" -> InsertC(s, e[2], e[3], fb)
                            [] e[1] = "del" -> Delete(s, e[2], e[3])
-Edits(len) == {<<k, o, n>> : k \in {"ow", "ins", "del"}, o \in 0..len, n \in 1..MaxEdit}
-Valid(s, e) == IF e[1] = "ins" THEN e[2] <= Len(s) ELSE e[2] + e[3] <= Len(s)
+EditKinds == {"ow", "ins", "del", "owc", "insc"}
+\* (a constant run of one byte is the same edit as "ow" / "ins" of one byte)
+Edits(len) == {<<k, o, n>> : k \in EditKinds, o \in 0..len, n \in 1..MaxEdit} \ {<<k, o, 1>> : k \in {"owc", "insc"}, o \in 0..len}
+Valid(s, e) == IF e[1] \in {"ins", "insc"} THEN e[2] <= Len(s) ELSE e[2] + e[3] <= Len(s)
 Introduced(e) == IF e[1] = "del" THEN 0 ELSE e[3]
 VARIABLES nedits, introduced
 FInit == /\ bs \in BSs
